@@ -2,6 +2,7 @@ package dbworld
 
 import (
 	"fmt"
+	"os"
 	"regexp"
 	"runtime"
 	"sort"
@@ -226,6 +227,15 @@ func (w *World) run(full bool) {
 	defer statedb.VerifInstallHooks(nil, nil, nil)
 
 	w.metrics = newSimMetrics()
+	if os.Getenv("VERIF_TRACE_METRICS") != "" {
+		w.metrics.trace = func(name string, n int) {
+			cur := "?"
+			if t := w.S.Cur(); t != nil {
+				cur = t.Name + "@" + t.Point()
+			}
+			fmt.Printf("METRIC graveyard[%s]=%d at step %d by %s\n", name, n, w.S.Steps(), cur)
+		}
+	}
 	w.db = statedb.New(statedb.WithMetrics(w.metrics))
 	w.db.VerifSetGCRateLimitInterval(w.gcInterval)
 
@@ -401,6 +411,7 @@ type simMetrics struct {
 	revision  map[string]uint64
 	lowWater  map[string]uint64
 	gcRounds  int
+	trace     func(string, int)
 }
 
 func newSimMetrics() *simMetrics {
@@ -417,9 +428,14 @@ func (m *simMetrics) GraveyardLowWatermark(tableName string, lowWatermark stated
 	m.gcRounds++
 }
 func (m *simMetrics) GraveyardCleaningDuration(tableName string, duration time.Duration) {}
-func (m *simMetrics) GraveyardObjectCount(tableName string, n int)                       { m.graveyard[tableName] = n }
-func (m *simMetrics) ObjectCount(tableName string, n int)                                { m.objects[tableName] = n }
-func (m *simMetrics) DeleteTrackerCount(tableName string, n int)                         { m.trackers[tableName] = n }
+func (m *simMetrics) GraveyardObjectCount(tableName string, n int) {
+	m.graveyard[tableName] = n
+	if m.trace != nil {
+		m.trace(tableName, n)
+	}
+}
+func (m *simMetrics) ObjectCount(tableName string, n int)        { m.objects[tableName] = n }
+func (m *simMetrics) DeleteTrackerCount(tableName string, n int) { m.trackers[tableName] = n }
 func (m *simMetrics) Revision(tableName string, revision statedb.Revision) {
 	m.revision[tableName] = revision
 }
